@@ -118,37 +118,42 @@ def r03_2(ctx: Ctx):
                         obs.append(ctx.ob("R03.2", f, a, status=OK if allowed else VIOLATION, detail="raw level problem read only to build the counting wrapper" if allowed else f"deme code reads the level's raw problem `{norm(a)}` (evaluations through it bypass the deme's counter)"))
             # objective handed to external optimisers
             for cs in ctx.res.callsites(f):
-                if cs.external and cs.external.startswith("scipy.optimize.") and isinstance(cs.node, ast.Call) and cs.node.args:
+                if cs.external and cs.external.startswith("scipy.optimize.") and isinstance(cs.node, ast.Call):
                     n_sites += 1
-                    ok, why = _objective_forwards_to_wrapper(ctx, f, cs.node.args[0], sn)
-                    obs.append(ctx.ob("R03.2", f, cs.node, status=OK if ok else VIOLATION, detail="scipy objective forwards every call to self._problem.evaluate" if ok else f"scipy objective {why}"))
+                    from ..core import effective_keywords
+
+                    fun_arg = cs.node.args[0] if cs.node.args else effective_keywords(cs.node, local_defs(f)).get("fun")
+                    ok, why = _objective_forwards_to_wrapper(ctx, f, fun_arg, sn) if fun_arg is not None else (None, "no objective argument found")
+                    obs.append(ctx.ob("R03.2", f, cs.node, status=OK if ok else INCONCLUSIVE if ok is None else VIOLATION, detail="scipy objective forwards every call to self._problem.evaluate" if ok else f"scipy objective {why}"))
     if n_sites < 14:
         raise AnalysisError(f"only {n_sites} problem-argument sites found in deme classes (>= 14 confirmed by hand)")
     return obs
 
 
 def _objective_forwards_to_wrapper(ctx, f, arg, selfn):
-    """fun is self._problem.evaluate, or a local def/lambda whose every path calls it exactly once."""
-    defs = local_defs(f)
-    e = arg
-    if isinstance(e, ast.Name) and e.id in defs and len(defs[e.id]) == 1:
-        e = defs[e.id][0]
-    if isinstance(e, ast.Attribute) and e.attr == "evaluate" and is_self_attr(e.value, "_problem", selfn):
-        return True, ""
-    body = None
-    if isinstance(e, ast.Lambda):
-        body = [ast.Return(value=e.body)]
-        node = e
-    elif isinstance(arg, ast.Name) and arg.id in f.nested:
-        node = f.nested[arg.id].node
-        body = node.body
-    else:
-        return False, f"`{norm(arg)}` is not recognisably the deme's counting wrapper"
-    calls = [c for st in body for c in ast.walk(st) if isinstance(c, ast.Call) and isinstance(c.func, ast.Attribute) and c.func.attr == "evaluate" and is_self_attr(c.func.value, "_problem", selfn)]
+    """fun is self._problem.evaluate, or a lambda / local def / private method whose every path calls it exactly once.
+    Returns (True, "") | (False, reason) | (None, reason) — None: the objective has a form the analyser does not understand."""
+    from .common import objective_function
+
+    kind, node, owner, rets = objective_function(ctx, f, arg)
+    if kind == "method-ref":
+        if node.attr == "evaluate" and is_self_attr(node.value, "_problem", selfn):
+            return True, ""
+        return False, f"`{norm(node)}` is not the deme's counting wrapper: scipy's calls are not counted by this deme"
+    if kind == "unknown":
+        return None, f"`{norm(arg)}` cannot be resolved to a function"
+    osn = owner.self_name() if owner is not None and owner.cls is not None and owner.parent is None else selfn
+    body = [ast.Return(value=node.body)] if isinstance(node, ast.Lambda) else node.body
+    calls = [c for st in body for c in ast.walk(st) if isinstance(c, ast.Call) and isinstance(c.func, ast.Attribute) and c.func.attr == "evaluate" and is_self_attr(c.func.value, "_problem", osn)]
+    other_evals = [c for st in body for c in ast.walk(st) if isinstance(c, ast.Call) and isinstance(c.func, ast.Attribute) and c.func.attr == "evaluate" and c not in calls]
     conds = [x for st in body for x in ast.walk(st) if isinstance(x, (ast.If, ast.IfExp, ast.While, ast.For, ast.Try, ast.BoolOp))]
-    if len(calls) == 1 and not conds:
+    if other_evals:
+        return False, f"`{norm(arg)}` evaluates through `{norm(other_evals[0].func)}`, not through the deme's counting wrapper"
+    if len(calls) == 1 and not any(any(c is y for y in ast.walk(x)) for x in conds for c in calls):
         return True, ""
-    return False, f"`{norm(arg)}` calls self._problem.evaluate {len(calls)} time(s) under {len(conds)} branching construct(s): scipy's nfev would not equal the wrapper's count"
+    if len(calls) == 0:
+        return False, f"`{norm(arg)}` never calls self._problem.evaluate"
+    return False, f"`{norm(arg)}` calls self._problem.evaluate {len(calls)} time(s), conditionally: scipy's nfev would not equal the wrapper's count"
 
 
 def r03_3(ctx: Ctx):
@@ -176,6 +181,7 @@ def r03_3(ctx: Ctx):
         acc = rets[0].value.attr
         # accumulator: 0 in __init__, `+= <r>.nfev` where r is the result of a scipy call with a forwarding objective
         bad = []
+        unknown = []
         n_feed = 0
         for f in ctx.prog.functions_in(ci):
             fsn = (f.self_name() if f.parent is None else f.parent.self_name()) or "self"
@@ -187,20 +193,46 @@ def r03_3(ctx: Ctx):
                         continue
                     if f.name == "__init__" and isinstance(n, (ast.Assign, ast.AnnAssign)) and isinstance(n.value, ast.Constant) and n.value.value == 0:
                         continue
-                    if isinstance(n, ast.AugAssign) and isinstance(n.op, ast.Add) and isinstance(n.value, ast.Attribute) and n.value.attr == "nfev" and isinstance(n.value.value, ast.Name):
-                        src = defs.get(n.value.value.id, [])
+                    incr = n.value if isinstance(n, ast.AugAssign) and isinstance(n.op, ast.Add) else None
+                    hops = 0
+                    while isinstance(incr, ast.Name) and incr.id in defs and len(defs[incr.id]) == 1 and hops < 4:
+                        incr = defs[incr.id][0]
+                        hops += 1
+                    if incr is not None and isinstance(incr, ast.Attribute) and incr.attr == "nfev" and isinstance(incr.value, ast.Name):
+                        src = defs.get(incr.value.id, [])
                         good = len(src) == 1 and isinstance(src[0], ast.Call) and any(cs.node is src[0] and cs.external and cs.external.startswith("scipy.optimize.") for cs in ctx.res.callsites(f))
                         if good:
-                            okf, why = _objective_forwards_to_wrapper(ctx, f, src[0].args[0], fsn) if src[0].args else (False, "no objective")
+                            from ..core import effective_keywords
+
+                            fun_arg = src[0].args[0] if src[0].args else effective_keywords(src[0], defs).get("fun")
+                            okf, why = _objective_forwards_to_wrapper(ctx, f, fun_arg, fsn) if fun_arg is not None else (None, "no objective found")
                             if okf:
                                 n_feed += 1
+                                objective_owner = fun_arg
                                 continue
-                            bad.append((n, "accumulates nfev of an optimiser whose objective " + why))
+                            (bad if okf is False else unknown).append((n, "accumulates nfev of an optimiser whose objective " + why))
                             continue
-                    bad.append((n, f"accumulator changed by `{norm(n)}`"))
+                        unknown.append((n, f"cannot resolve the optimiser run behind `{norm(n)}`"))
+                        continue
+                    if incr is not None and isinstance(incr, ast.BinOp):
+                        bad.append((n, f"accumulator increased by `{norm(incr)}`, more than the optimiser's own nfev"))
+                        continue
+                    unknown.append((n, f"accumulator changed by `{norm(n)}` (form not understood)"))
         # every evaluation the class makes must be covered by the accumulator: no evaluating call outside the counted optimiser run
+        objective_methods = set()
         for f in ctx.prog.functions_in(ci):
-            if f.parent is not None:
+            for cs in ctx.res.callsites(f):
+                if cs.external and cs.external.startswith("scipy.optimize.") and isinstance(cs.node, ast.Call):
+                    from ..core import effective_keywords
+                    from .common import objective_function
+
+                    fa = cs.node.args[0] if cs.node.args else effective_keywords(cs.node, local_defs(f)).get("fun")
+                    if fa is not None:
+                        k, nd, owner, _ = objective_function(ctx, f, fa)
+                        if owner is not None:
+                            objective_methods.add(owner.qualname)
+        for f in ctx.prog.functions_in(ci):
+            if f.parent is not None or f.qualname in objective_methods:
                 continue
             inside_lambda = {id(x) for lam in body_walk(f.node) if isinstance(lam, ast.Lambda) for x in ast.walk(lam)}
             for cs in ctx.res.callsites(f):
@@ -214,12 +246,18 @@ def r03_3(ctx: Ctx):
                     bad.append((cs.node, f"`{norm(cs.node)[:80]}` in {f.short} evaluates the objective outside the optimiser run whose nfev feeds the accumulator: that call is made but never reported"))
         for n, why in bad:
             obs.append(ctx.ob("R03.3", o, n, status=VIOLATION, detail=f"{ci.name}.n_evaluations: {why}"))
-        if not bad:
+        for n, why in unknown:
+            obs.append(ctx.ob("R03.3", o, n, status=INCONCLUSIVE, detail=f"{ci.name}.n_evaluations: {why}"))
+        if not bad and not unknown:
             obs.append(ctx.ob("R03.3", o, o.node, status=OK if n_feed else VIOLATION, detail=f"{ci.name}: accumulator fed only by result.nfev of {n_feed} scipy call(s) whose objective forwards to the counting wrapper" if n_feed else f"{ci.name}.n_evaluations accumulator is never fed", construct=f"{ci.name}.count"))
     # tree totals
     t = ctx.prog.own_method("DemeTree", "n_evaluations")
     ok, why = _sum_over_all_demes(ctx, t)
-    obs.append(ctx.ob("R03.3", t, t.node, status=OK if ok else VIOLATION, detail="tree total = sum of deme.n_evaluations over all_demes" if ok else f"DemeTree.n_evaluations {why}", construct="tree-total"))
+    obs.append(ctx.ob("R03.3", t, t.node, status=OK if ok else INCONCLUSIVE if ok is None else VIOLATION, detail="tree total = sum of deme.n_evaluations over all_demes" if ok else f"DemeTree.n_evaluations {why}", construct="tree-total"))
+    # counts are computed live on every read: no accessor on the counting path stores anything (a memoised count goes stale)
+    for acc_m in [t, m] + [c.methods["n_evaluations"] for c in ctx.prog.subclasses(base) if "n_evaluations" in c.methods]:
+        w = sorted(e for e in ctx.eff.of(acc_m) if e[0] in ("WRITE", "GLOBALWRITE"))
+        obs.append(ctx.ob("R03.3", acc_m, acc_m.node, status=VIOLATION if w else OK, detail=f"{acc_m.short} caches state while counting ({w[0][1]}): a memoised evaluation count is not updated when the deme evaluates again, so totals (and eval-limit stop conditions) fall behind the real number of calls" if w else f"{acc_m.short} is computed live (no stores)", witness=ctx.eff.chain(acc_m, w[0]) if w else [], construct=f"{acc_m.short}:live"))
     ad = ctx.prog.own_method("DemeTree", "all_demes")
     ok, why = _all_demes_unfiltered(ad)
     obs.append(ctx.ob("R03.3", ad, ad.node, status=OK if ok else VIOLATION, detail="all_demes enumerates every deme of every level" if ok else f"all_demes {why}", construct="all_demes"))
@@ -248,24 +286,34 @@ def r03_3(ctx: Ctx):
 
 
 def _sum_over_all_demes(ctx, t):
+    """True / False (positively wrong: filtered or partial source) / None (form not understood)."""
+    from ..core import canon
+
     rets = [n for n in body_walk(t.node) if isinstance(n, ast.Return)]
     if len(rets) != 1:
-        return False, "has several returns"
+        return None, "has several returns"
+    defs = local_defs(t)
     v = rets[0].value
+    hops = 0
+    while isinstance(v, ast.Name) and v.id in defs and len(defs[v.id]) == 1 and hops < 4:
+        v = defs[v.id][0]
+        hops += 1
     if not (isinstance(v, ast.Call) and norm(v.func) == "sum" and len(v.args) == 1 and isinstance(v.args[0], (ast.GeneratorExp, ast.ListComp))):
-        return False, f"is `{norm(v)}`, not a sum over demes"
+        return None, f"is `{norm(v)[:80]}`, not recognisably a sum over demes"
     comp = v.args[0]
     if not norm(comp.elt).endswith(".n_evaluations"):
-        return False, f"sums `{norm(comp.elt)}`"
+        return False, f"sums `{norm(comp.elt)}` instead of the demes' evaluation counts"
     if any(g.ifs for g in comp.generators):
-        return False, "filters the demes it sums over"
-    srcs = [norm(g.iter) for g in comp.generators]
+        return False, "filters the demes it sums over (" + ", ".join(norm(c) for g in comp.generators for c in g.ifs) + ")"
+    srcs = [canon(g.iter, defs) for g in comp.generators]
     sn = t.self_name()
     if srcs == [f"{sn}.all_demes"]:
         return True, ""
-    if len(srcs) == 2 and srcs[0] in (f"{sn}.levels", f"{sn}._levels"):
+    if len(srcs) == 2 and srcs[0] in (f"{sn}.levels", f"{sn}._levels") and isinstance(comp.generators[0].target, ast.Name) and srcs[1] == comp.generators[0].target.id:
         return True, ""
-    return False, f"sums over `{', '.join(srcs)}`, not over all demes"
+    if any(x in srcs[0] for x in ("active", "leaves", "root", "[")):
+        return False, f"sums over `{', '.join(srcs)}`, not over all demes of all levels"
+    return None, f"sums over `{', '.join(srcs)}` (source not understood)"
 
 
 def _all_demes_unfiltered(ad):
@@ -436,20 +484,27 @@ def r03_5(ctx: Ctx):
 
 def r03_6(ctx: Ctx):
     """R03.6 eval-limit stop conditions read the live counters over all demes."""
+    from ..core import canon
+
     obs = []
     m = ctx.prog.own_method("SingularProblemEvalLimitReached", "__call__")
+    defs = local_defs(m)
     rets = [n for n in body_walk(m.node) if isinstance(n, ast.Return)]
     tp = m.params()[1]
-    ok = len(rets) == 1 and norm(rets[0].value).replace(" ", "") in (f"{tp}.n_evaluations>={m.self_name()}.limit", f"{m.self_name()}.limit<={tp}.n_evaluations")
-    obs.append(ctx.ob("R03.6", m, m.node, status=OK if ok else VIOLATION, detail="tree.n_evaluations >= limit" if ok else f"SingularProblemEvalLimitReached returns `{norm(rets[0].value) if rets else '?'}`", construct="singular"))
+    t = canon(rets[0].value, defs) if len(rets) == 1 else ""
+    ok = t in (f"{tp}.n_evaluations>={m.self_name()}.limit", f"{m.self_name()}.limit<={tp}.n_evaluations", f"not{tp}.n_evaluations<{m.self_name()}.limit")
+    obs.append(ctx.ob("R03.6", m, m.node, status=OK if ok else VIOLATION, detail="tree.n_evaluations >= limit" if ok else f"SingularProblemEvalLimitReached returns `{t}` instead of tree.n_evaluations >= limit", construct="singular"))
     w = ctx.prog.own_method("FitnessEvalLimitReached", "__call__")
     tp = w.params()[1]
-    loops = [n for n in body_walk(w.node) if isinstance(n, ast.For)]
-    ok = any(norm(l.iter) == f"{tp}.all_demes" and any(isinstance(x, ast.Attribute) and x.attr == "n_evaluations" for x in ast.walk(l)) for l in loops)
-    obs.append(ctx.ob("R03.6", w, w.node, status=OK if ok else VIOLATION, detail="weighted sum of deme.n_evaluations over tree.all_demes" if ok else "FitnessEvalLimitReached does not sum deme.n_evaluations over tree.all_demes", construct="weighted"))
+    wdefs = local_defs(w)
     rets = [n for n in body_walk(w.node) if isinstance(n, ast.Return)]
-    ok = len(rets) == 1 and isinstance(rets[0].value, ast.Compare) and isinstance(rets[0].value.ops[0], ast.GtE) and norm(rets[0].value.comparators[0]).endswith(".limit")
-    obs.append(ctx.ob("R03.6", w, rets[0] if rets else w.node, status=OK if ok else VIOLATION, detail="weighted total >= limit" if ok else "FitnessEvalLimitReached does not compare with `>= limit`", construct="weighted-cmp"))
+    t = canon(rets[0].value, wdefs) if len(rets) == 1 else ""
+    import re
+
+    mm = re.fullmatch(r"sum\(\((.+)for(\w+),(\w+)in%s\.all_demes\)\)>=%s\.limit" % (re.escape(tp), re.escape(w.self_name())), t)
+    ok = bool(mm) and f"{mm.group(3)}.n_evaluations" in mm.group(1) and "weights" in mm.group(1)
+    obs.append(ctx.ob("R03.6", w, rets[0] if rets else w.node, status=OK if ok else VIOLATION if ("n_evaluations" not in t or "all_demes" not in t or ">=" not in t) else INCONCLUSIVE, detail="weighted sum of deme.n_evaluations over tree.all_demes >= limit" if ok else f"FitnessEvalLimitReached returns `{t[:110]}`, not (weighted sum of deme.n_evaluations over tree.all_demes) >= limit", construct="weighted"))
+    obs.append(ctx.ob("R03.6", w, w.node, detail="comparator checked together with the sum", construct="weighted-cmp", trivial=True))
     return obs
 
 
